@@ -68,6 +68,8 @@ impl DefaultMetricLogWriter {
             // Append the LF line separator.
             let s = item.to_string() + "\n";
             metric_out.write_all(s.as_ref())?;
+            #[cfg(flea1lt_sentinel_rust_verif)]
+            crate::verif::fileobs::record(crate::verif::fileobs::FileOp::WriteLog(s.clone().into_bytes()));
         }
         metric_out.flush()?;
         Ok(())
@@ -106,7 +108,11 @@ impl DefaultMetricLogWriter {
         // Use BigEndian here to keep consistent with DataOutputStream in Java.
         let mut idx_out = self.cur_metric_idx_file.as_ref().unwrap().write().unwrap();
         idx_out.write_all(&time.to_be_bytes())?;
+        #[cfg(flea1lt_sentinel_rust_verif)]
+        crate::verif::fileobs::record(crate::verif::fileobs::FileOp::WriteIdx(time.to_be_bytes().to_vec()));
         idx_out.write_all(&offset.to_be_bytes())?;
+        #[cfg(flea1lt_sentinel_rust_verif)]
+        crate::verif::fileobs::record(crate::verif::fileobs::FileOp::WriteIdx(offset.to_be_bytes().to_vec()));
         idx_out.flush()?;
         Ok(())
     }
@@ -121,14 +127,20 @@ impl DefaultMetricLogWriter {
                 let idx_filename = form_metric_idx_filename(filename.to_str().unwrap());
                 match fs::remove_file(filename) {
                     Ok(_) => {
+                        #[cfg(flea1lt_sentinel_rust_verif)]
+                        crate::verif::fileobs::record(crate::verif::fileobs::FileOp::Remove(filename.to_str().unwrap().to_owned()));
                         logging::info!("[MetricWriter] Metric log file removed in DefaultMetricLogWriter.remove_deprecated_files(), filename: {:?}", filename);
                     }
                     Err(err) => {
                         logging::error!("Failed to remove metric log file in DefaultMetricLogWriter::remove_deprecated_files(), filename: {:?}, error: {:?}", filename, err);
                     }
                 }
+                #[cfg(flea1lt_sentinel_rust_verif)]
+                let verif_idx_filename = idx_filename.clone();
                 match fs::remove_file(idx_filename) {
                     Ok(_) => {
+                        #[cfg(flea1lt_sentinel_rust_verif)]
+                        crate::verif::fileobs::record(crate::verif::fileobs::FileOp::Remove(verif_idx_filename));
                         logging::info!("[MetricWriter] Metric index file removed in DefaultMetricLogWriter.remove_deprecated_files(), filename: {:?}", filename);
                     }
                     Err(err) => {
@@ -179,6 +191,8 @@ impl DefaultMetricLogWriter {
         }
         // Create new metric log file, whether it exists or not.
         let mf = fs::File::create(&filename)?;
+        #[cfg(flea1lt_sentinel_rust_verif)]
+        crate::verif::fileobs::record(crate::verif::fileobs::FileOp::Create(filename.clone()));
         logging::info!(
             "[MetricWriter] New metric log file created, filename {:?}",
             filename
@@ -186,6 +200,8 @@ impl DefaultMetricLogWriter {
 
         let idx_file = form_metric_idx_filename(&filename);
         let mif = fs::File::create(&idx_file)?;
+        #[cfg(flea1lt_sentinel_rust_verif)]
+        crate::verif::fileobs::record(crate::verif::fileobs::FileOp::Create(idx_file.clone()));
         logging::info!(
             "[MetricWriter] New metric log index file created, idx_file {:?}",
             idx_file
